@@ -33,6 +33,83 @@ BUDGET = {"quick": 60.0, "thorough": 300.0}
 N_DEFAULT = {"quick": 1500, "thorough": 20000}
 
 
+# obligation label keywords -> the property clauses that express them (first-match is NOT used: all matching rows
+# are united).  Only used to decide which violations count as a reproduction of THAT obligation.
+OBLIGATION_CLAUSES = [
+    ("span_end_ge_token_end", ["span_covers_token", "bounds"]),
+    ("full_span_start_ge_0", ["bounds", "plaintiff_at_full_span_start"]),
+    ("plaintiff_at_full_span_start", ["plaintiff_at_full_span_start", "inside_full_span"]),
+    ("joke", ["bounds", "span_covers_token", "non_interference", "inside_full_span", "remove_ambiguous_only_filters"]),
+    ("bounds", ["bounds", "offsets_valid"]),
+    ("spans", ["bounds", "offsets_valid"]),
+    ("span_covers_token", ["span_covers_token"]),
+    ("pincite", ["pincite_span_contains_span", "pincite_text_inside"]),
+    ("pin_cite_span", ["pincite_span_contains_span", "pincite_text_inside"]),
+    ("ordered_by_span", ["ordered_by_span", "twostep_ordered_by_span"]),
+    ("sorted", ["ordered_by_span", "twostep_ordered_by_span"]),
+    ("distinct_spans", ["unique_spans", "twostep_unique_spans"]),
+    ("unique", ["unique_spans", "twostep_unique_spans"]),
+    ("disjoint", ["spans_disjoint", "twostep_spans_disjoint"]),
+    ("keeps_non_references", ["keeps_non_references"]),
+    ("subseq", ["keeps_non_references"]),
+    ("idempotent", ["idempotent"]),
+    ("cat_is_prefix", ["concat_is_text"]),
+    ("concat", ["concat_is_text"]),
+    ("part", ["concat_is_text", "token_offsets_index_text", "tokens_increasing_disjoint", "index_list_exact"]),
+    ("cand", ["token_offsets_index_text"]),
+    ("offsets_index", ["token_offsets_index_text"]),
+    ("increasing", ["tokens_increasing_disjoint"]),
+    ("index_list", ["index_list_exact"]),
+    ("citation_tokens", ["index_list_exact"]),
+    ("parallel_only_when_joined", ["inside_full_span"]),
+    ("prov", ["inside_full_span", "plaintiff_at_full_span_start"]),
+    ("inside_full_span", ["inside_full_span"]),
+    ("year", ["year_range_and_value"]),
+    ("edition_guess", ["edition_guess_member", "edition_guess_single", "edition_guess_unique_by_year"]),
+    ("guess_edition", ["edition_guess_member", "edition_guess_single", "edition_guess_unique_by_year"]),
+    ("includes_year", ["edition_guess_unique_by_year"]),
+    ("disambiguate", ["remove_ambiguous_only_filters"]),
+    ("remove_ambiguous", ["remove_ambiguous_only_filters"]),
+    ("non_interference", ["non_interference"]),
+    ("after_full", ["reference_after_full"]),
+    ("contains_valid_name", ["reference_contains_valid_name"]),
+    ("offsets_valid", ["offsets_valid"]),
+]
+
+
+def clauses_for(pid, obligation, explicit=None):
+    """The set of clause names that count as reproducing `obligation` (None = any clause of the property)."""
+    import checkers
+
+    mine = set(checkers.CLAUSES.get(pid, ()))
+    if explicit:
+        return {explicit} if isinstance(explicit, str) else set(explicit)
+    ob = (obligation or "").lower()
+    if pid == "C04":  # every C04 obligation is a safety obligation of some function: pick the stage by module
+        fn = ob.split("/", 1)[0]
+        fn = fn[len("eyecite."):] if fn.startswith("eyecite.") else fn
+        if fn.startswith("resolve."):
+            return {"no_raise_resolve"}
+        if fn.startswith("annotate.") or fn.startswith("utils."):
+            return {"no_raise_annotate"}
+        if fn:
+            return {"no_raise_extract"}
+        return None
+    label = ob.split("/", 1)[1] if "/" in ob else ""
+    last = label.rsplit(":", 1)[-1]
+    if last in mine:
+        return {last}
+    out = set()
+    for kw, cl in OBLIGATION_CLAUSES:
+        if kw in label:
+            out.update(c for c in cl if c in mine)
+    return out or None
+
+
+def _is_easter_egg(v):
+    return v["input"] == "eyecite" or bool(v["detail"].get("easter_egg")) or (isinstance(v["input"], dict) and v["detail"].get("cleaned") == "eyecite")
+
+
 def _witness_cases(kf):
     """Every stored witness of a known-finding entry as a checker case."""
     raw = []
@@ -107,11 +184,9 @@ def replay_obligation(req):
     seed = int(req.get("seed") or 0)
     obligation = req.get("obligation") or ""
     focus = obligation.split("/", 1)[0].strip() or None
-    clause = req.get("clause")
-    if not clause and ":" in obligation:
-        last = obligation.rsplit(":", 1)[-1]
-        if last in checkers.CLAUSES.get(pid, ()):
-            clause = last
+    accepted = clauses_for(pid, obligation, req.get("clause"))
+    joke = "joke" in obligation.lower()
+    clause = sorted(accepted) if accepted else None
     t0 = time.time()
     kind = checkers.CASE_KIND[pid]
     extra = gen.value_seeded_texts(req.get("values") or {}, markup=(kind == "markup"))
@@ -135,14 +210,18 @@ def replay_obligation(req):
         evaluations += rep["evaluations"]
         for k, v in rep["violation_counts"].items():
             counts[k] = counts.get(k, 0) + v
-        hits = [v for v in rep["violations"] if clause is None or v["clause"] == clause]
+        # the deliberate easter egg (input "eyecite") reproduces nothing but the joke-path obligation
+        hits = [v for v in rep["violations"] if (accepted is None or v["clause"] in accepted) and (joke or not _is_easter_egg(v))]
+        if pid == "C17" and "parallel" in obligation.lower():
+            # what is_parallel_citation copies: parties and year
+            hits = [v for v in hits if v["detail"].get("field") in ("year", "plaintiff", "defendant")]
         if hits:
             # prefer a witness produced from the model values, then the shortest input
             hits.sort(key=lambda v: (0 if v["detail"].get("_origin") == "values" else 1, len(json.dumps(v["input"]))))
             witness = hits[0]
             break
     return {
-        "property": pid, "mode": "obligation", "obligation": obligation, "focus": focus, "clause": clause, "reproduced": witness is not None,
+        "property": pid, "mode": "obligation", "obligation": obligation, "focus": focus, "clauses_accepted": clause, "reproduced": witness is not None,
         "witness": witness, "evaluations": evaluations, "violation_counts": counts, "value_templates": len(extra), "tier": tier, "seed": seed,
         "wall_s": round(time.time() - t0, 2), "eyecite": checkers.EYECITE_FILE,
     }
